@@ -6,6 +6,7 @@ import (
 	"go/types"
 	"sort"
 	"strconv"
+	"strings"
 
 	"golang.org/x/tools/go/ssa"
 )
@@ -265,6 +266,8 @@ func runC03(r *Run) {
 	r.Borrow("C19", map[string]string{"C19.read": "C03.typeread"})
 	// ---- what the builder writes must decode again: Decode's reject conditions are exactly the framing's
 	r.Borrow("C02", map[string]string{"C02.guards": "C03.decodeguards"})
+	// Encode starts from an empty Raw: what follows the rebuilt header and attributes is never left behind (shared with C08)
+	r.Borrow("C08", map[string]string{"C08.reset": "C03.reset"})
 
 	// ---- Equal agrees with content, not with history
 	eqr := r.Rule("C03.equal", "Message.Equal and the functions it calls never compare a slice with nil: a Message without attributes is Equal to the decode of its own bytes whether its list is nil (fresh) or empty (reused)", 2)
@@ -553,6 +556,19 @@ func checkPadZero(r *Run, rc *RuleCtx, le *linEval, add, grow *ssa.Function, raw
 				if le.lenOf(src).equal(hi.add(lo, -1)) && zeroGlobalSlice(src) {
 					okDone, how = c, "copy from zero array"
 				}
+				// copy from a local array that is never written and is at least as long as the padding can be
+				// (the padding is f(n) - n for the padding function, whose summary bounds it)
+				if n, isZ := zeroLocalArraySlice(src); isZ {
+					if pf := r.P.Fn("nearestPaddedValueLength"); pf != nil {
+						if sm := summarizeIntFunc(pf); sm != nil && sm.RelHi <= n {
+							for t, coef := range k.Terms {
+								if coef == 1 && strings.HasPrefix(t, fnName(pf)+"(") {
+									okDone, how = c, fmt.Sprintf("copy from a zero local array of %d >= %d bytes", n, sm.RelHi)
+								}
+							}
+						}
+					}
+				}
 			}
 		}
 	})
@@ -564,6 +580,43 @@ func checkPadZero(r *Run, rc *RuleCtx, le *linEval, add, grow *ssa.Function, raw
 	if !instrDominates(okDone, second) && okDone != ssa.Instruction(second) {
 		rc.Violation(add, instrPos(second), "padding zeroed only on some paths", "on some path the buffer is extended over the padding bytes without clearing them")
 	}
+}
+
+// zeroLocalArraySlice: v is arr[:] of a local array that is never written (its only uses are slicing as the
+// source of a copy): the array's length.
+func zeroLocalArraySlice(v ssa.Value) (int64, bool) {
+	src, isSl := v.(*ssa.Slice)
+	if !isSl || src.High != nil || src.Max != nil {
+		return 0, false
+	}
+	if src.Low != nil {
+		if c, isC := constInt(src.Low); !isC || c != 0 {
+			return 0, false
+		}
+	}
+	al, isA := src.X.(*ssa.Alloc)
+	if !isA {
+		return 0, false
+	}
+	at, isArr := al.Type().(*types.Pointer).Elem().Underlying().(*types.Array)
+	if !isArr {
+		return 0, false
+	}
+	for _, u := range *al.Referrers() {
+		switch y := u.(type) {
+		case *ssa.Slice:
+			for _, u2 := range *y.Referrers() {
+				c2, isC := u2.(*ssa.Call)
+				if !isC || !isBuiltinCall(c2, "copy") || c2.Call.Args[1] != ssa.Value(y) || c2.Call.Args[0] == ssa.Value(y) {
+					return 0, false
+				}
+			}
+		case *ssa.DebugRef:
+		default:
+			return 0, false
+		}
+	}
+	return at.Len(), true
 }
 
 func zeroGlobalSlice(v ssa.Value) bool {
